@@ -319,7 +319,10 @@ class HasPropertyLayers:
         mask = np.zeros(self.dimensions, dtype=bool)
 
         # Convert the neighborhood list to a NumPy array and use advanced indexing
-        coords = np.array([c.coordinate for c in neighborhood])
+        # (the explicit shape keeps an empty neighborhood indexable: it selects nothing)
+        coords = np.array([c.coordinate for c in neighborhood], dtype=int).reshape(
+            -1, len(self.dimensions)
+        )
         indices = [coords[:, i] for i in range(coords.shape[1])]
         mask[*indices] = True
         return mask
